@@ -2196,10 +2196,15 @@ class IrregularLattice(Lattice):
         """Remove and add irregular sites to the order of the regular lattice."""
         mps_reg = np.arange(len(order))
         if self.remove is not None:
+            old_perm = getattr(self, '_perm', None)
             self._perm = np.lexsort(order.T)  # allow to temporarily use lat2mps_idx for lattice
             # indices with u from regular lattice
             keep = np.ones([len(order)], np.bool_)
-            keep[self.lat2mps_idx(self.remove)] = False
+            try:
+                keep[self.lat2mps_idx(self.remove)] = False
+            finally:
+                if old_perm is not None:
+                    self._perm = old_perm  # only temporarily: `ordering` must not change the lattice
             order = order[keep]
             mps_reg = mps_reg[keep]
         if self.add is not None:
